@@ -30,9 +30,7 @@ Definition ecode (e : edge) : Z := fst e * 1048576 + snd e.
 Definition edges_same_set (a b : list edge) : bool :=
   lz_eqb (ZSort.sort (map ecode a)) (ZSort.sort (map ecode b)).
 Definition edges_eqb (a b : list edge) : bool := list_eqb edge_eqb a b.
-Definition faces_eqb (a b : list (list Z)) : bool := list_eqb lz_eqb a b.
 Definition pts_eqb (a b : list pt) : bool := list_eqb pt_eqb a b.
-Definition corn_eqb (a b : list (Z * Z)) : bool := list_eqb edge_eqb a b.
 
 (* sigma = [] is the identity *)
 Definition sg (sigma : list Z) (i : Z) : Z := match sigma with [] => i | _ => znth sigma i (-1) end.
@@ -65,7 +63,8 @@ Definition verts_match (sigma : list Z) (mv iv : list pt) : bool :=
 (* ------------------------------------------------------------------ surface editing block *)
 Record sobs := mksobs {
   oV : list pt; oE : list edge; oF : list (list Z); oCorn : list (Z * Z);        (* result mesh *)
-  oaV : list pt; oaE : list edge; oaF : list (list Z); oaCorn : list (Z * Z) }.  (* the mesh passed in, afterwards *)
+  oaV : list pt; oaE : list edge; oaF : list (list Z); oaCorn : list (Z * Z);    (* the mesh passed in, afterwards *)
+  oaconn : bool }.                            (* did its connectivity answers describe its own element lists? *)
 
 Definition input_surface (V : list pt) (F : list (list Z)) : raw pt := pr (prepare (mkraw V [] F [])).
 
@@ -73,7 +72,7 @@ Definition input_surface (V : list pt) (F : list (list Z)) : raw pt := pr (prepa
    the edge list, and the numbering of vertices created from it afterwards, are not fixed by the source *)
 Definition through_set (o : sop) : bool := match o with Loop n => 0 <? loop_iters n | _ => false end.
 
-Definition check_surface_ok (V : list pt) (F : list (list Z)) (ops : list sop) (o : sobs) : bool :=
+Definition check_surface_ok (V : list pt) (F : list (list Z)) (q : bool) (ops : list sop) (o : sobs) : bool :=
   match run_surface QcO (input_surface V F) ops with
   | Err _ => false
   | Ok r =>
@@ -89,13 +88,14 @@ Definition check_surface_ok (V : list pt) (F : list (list Z)) (ops : list sop) (
       && corn_eqb (map (fun c => (sg s (fst c), snd c)) (pcorn (res_mesh r))) (oCorn o)
       && pts_eqb (aV a) (oaV o) && edges_eqb (aE a) (oaE o) && faces_eqb (aF a) (oaF o)
       && corn_eqb (aCorn a) (oaCorn o)
+      && Bool.eqb (arg_conn_ok q (input_surface V F) a) (oaconn o)
   end.
 
 Inductive sout := SErr (e : err) | SOk (o : sobs).
-Definition check_surface (c : list pt * list (list Z) * list sop * sout) : bool :=
-  let '(V, F, ops, out) := c in
+Definition check_surface (c : list pt * list (list Z) * bool * list sop * sout) : bool :=
+  let '(V, F, q, ops, out) := c in
   match out with
-  | SOk o => check_surface_ok V F ops o
+  | SOk o => check_surface_ok V F q ops o
   | SErr e => match run_surface QcO (input_surface V F) ops with Err e' => err_eqb e e' | Ok _ => false end
   end.
 
